@@ -66,7 +66,7 @@ def run(ctx):
         G = [(Z * np.exp(-Ef * t)) @ Z.T for t in range(T)]
         G = [0.5 * (g + g.T) for g in G]
         nonsym = rng.choice(["symmetric", "noise", "antisymmetric"])
-        if i in (1, 2):                      # stratification: every run prunes a matrix with an antisymmetric part
+        if i in (1, 2, 3):                   # stratification: every run prunes a matrix with an antisymmetric part (i = 3: behind an undefined leading slice)
             nonsym = "antisymmetric"
         ncfg = 30
         content = []
@@ -90,6 +90,9 @@ def run(ctx):
                         m[b, a] = o - sh
             content.append(m)
         holes = sorted(rng.sample(range(t0 + 1, T), min(2, T - t0 - 2))) if rng.random() < 0.4 and T - t0 > 4 and i not in (1, 2) else []
+        if t0 >= 1 and (rng.random() < 0.3 or i == 3):
+            holes = sorted(set(holes) | {0})        # an undefined LEADING timeslice: the symmetry of the matrices must still be examined
+            ctx.count("gevp: leading timeslice undefined (%s input)" % nonsym)
         content_h = [None if t in holes else content[t] for t in range(T)]
         eqs, orders, par, dual, exps, close = [], [], [], [], [], []
         zs = [list(Z[:, n]) for n in range(N)]
